@@ -23,7 +23,7 @@ ASSUMPTIONS = [
     'values whose intermediates leave the normal double range (1e-290 .. 1e290) are outside the asserted set (overflow / subnormal rounding)',
     'dimension identity is exact string equality, as the table uses it; refusal is any instance of the module\'s ExceptionUnits (common.units / LIS.core.Units)',
     'the LIS table is taken from the __RAW_UNIT_MAP literal in the source text (ast), the OSDD table from the JSON file; a disagreement between these and the live tables makes the run inconclusive, it is not a conversion defect',
-    'EngVal: units given as bytes; a denominator in the blank unit is the documented "treat as a real number" case and is not a refusal; operations on two values in the same unknown unit request no conversion',
+    'EngVal: units given as bytes; a denominator in the blank unit (only NUL / whitespace in its first four bytes, which Mnem equates) is the documented "treat as a real number" case and is not a refusal; operations on two values in the same unknown unit request no conversion',
     'value None (LIS convert returns 0.0) and non-float arrays are outside the quantifier ("all finite values")',
 ]
 MECHANISMS = [
@@ -55,7 +55,7 @@ K = 4
 def plan(tier, seed):
     return [{'part': i, 'parts': NSHARDS, 'n_triples': N_TRIPLES[tier] // NSHARDS, 'n_cross': N_CROSS[tier] // NSHARDS,
              'n_engval': N_ENGVAL[tier] // NSHARDS, 'n_unknown': N_UNKNOWN[tier] // NSHARDS,
-             'all_triples': tier == 'thorough'} for i in range(NSHARDS)]
+             'all_triples': tier == 'thorough', 'extra_values': 12 if tier == 'thorough' else 0} for i in range(NSHARDS)]
 
 
 # ---------------------------------------------------------------------------------------------- known finding F12
@@ -107,18 +107,37 @@ class Reporter:
         self.rec.violation(monitor, kind, msg, witness, exc=exc)
 
 
+def is_blank(name):
+    """The dimensionless unit as EngVal sees it: nothing but NUL / whitespace in the first four bytes."""
+    if isinstance(name, str):
+        name = name.encode('ascii', 'replace')
+    return all(c in b'\x00 \t\n\r\x0b\x0c' for c in name[:4])
+
+
 def udesc(u):
     return {'code': u.code if isinstance(u.code, str) else repr(u.code), 'dimension': u.group if isinstance(u.group, str) else repr(u.group),
             'scale': u.fscale, 'offset': u.foffset}
 
 
-def pair_values(rng, a, b):
-    return [0.0, 1.0, -1.0, math.pi, -math.pi, 1e-30, 1e30,
-            a.foffset if a.foffset else 273.15,
-            -b.foffset if b.foffset else -459.67,
-            rng.uniform(-1000.0, 1000.0),
-            rng.choice([-1.0, 1.0]) * 10.0 ** rng.uniform(-12, 12),
-            float(rng.randrange(-10 ** 6, 10 ** 6))]
+def pair_values(rng, a, b, extra=0):
+    vs = [0.0, 1.0, -1.0, math.pi, -math.pi, 1e-30, 1e30,
+          a.foffset if a.foffset else 273.15,
+          -b.foffset if b.foffset else -459.67,
+          rng.uniform(-1000.0, 1000.0),
+          rng.choice([-1.0, 1.0]) * 10.0 ** rng.uniform(-12, 12),
+          float(rng.randrange(-10 ** 6, 10 ** 6))]
+    for i in range(extra):           # thorough tier: more of "all finite values"
+        k = i % 4
+        if k == 0:
+            vs.append(rng.choice([-1.0, 1.0]) * 10.0 ** rng.uniform(-30, 30))
+        elif k == 1:
+            vs.append(rng.uniform(-1.0, 1.0) * 10.0 ** rng.randrange(0, 7))
+        elif k == 2:
+            vs.append(math.ldexp(rng.random() + 0.5, rng.randrange(-60, 60)) * rng.choice([-1, 1]))
+        else:       # next to an offset: heavy cancellation in v - offset
+            o = a.foffset or b.foffset or 273.15
+            vs.append(o * (1.0 + rng.choice([-1, 1]) * 2.0 ** -rng.randrange(20, 52)))
+    return vs
 
 
 def few_values(rng, a, n):
@@ -144,9 +163,9 @@ class Osdd:
             self.ok = False
             ctx.rec.inconclusive_because('live OSDD table has %d units, the JSON file %d' % (len(self.real), len(self.by_code)))
         self.pairs = {}
-        ctx.rec.note('osdd_units', len(self.by_code))
-        ctx.rec.note('osdd_dimensions', len(self.by_dim))
-        ctx.rec.note('osdd_ordered_in_dimension_pairs', sum(len(v) ** 2 for v in self.by_dim.values()))
+        self.extra = 0
+        ctx.rec.note('osdd_table', '%d units, %d dimensions, %d ordered in-dimension pairs' % (
+            len(self.by_code), len(self.by_dim), sum(len(v) ** 2 for v in self.by_dim.values())))
 
     def pair(self, a, b):
         k = (a.index, b.index)
@@ -182,32 +201,33 @@ class Osdd:
             ub = self.real[b.code]
             P = self.pair(a, b)
             Pb = self.pair(b, a)
-            vals = pair_values(rng, a, b)
+            vals = pair_values(rng, a, b, self.extra)
             trivial_pair = a.fscale == b.fscale and a.foffset == b.foffset
             try:
                 fn = U.convert_function(ua, ub)
                 scal = [U.convert(v, ua, ub) for v in vals]
                 fres = [fn(v) for v in vals]
                 arr = np.array(vals, dtype=np.float64)
+                nv = len(vals)                 # a multiple of 12
                 shape_sel += 1
                 mode = shape_sel % 4
                 guard = None
                 if mode == 1:
-                    src = arr.reshape(3, 4)
+                    src = arr.reshape(3, nv // 3)
                 elif mode == 2:
-                    big = np.full(24, 7.25)
-                    big[::2] = arr
-                    src = big[::2]
-                    guard = big
+                    guard = np.full(2 * nv, 7.25)
+                    guard[::2] = arr
+                    src = guard[::2]               # a strided view: its neighbours must stay 7.25
                 elif mode == 3:
-                    src = np.asfortranarray(arr.reshape(4, 3))
+                    src = np.asfortranarray(arr.reshape(4, nv // 4))
                 else:
                     src = arr
-                keep = src.copy()
+                keep = src.copy(order='K')
                 out = U.convert_array(src, ua, ub)
                 copy_ok = np.array_equal(src, keep) and out is not src
-                ares = [float(x) for x in np.asarray(out).reshape(-1)] if mode != 3 else [float(x) for x in np.asarray(out).reshape(-1)]
-                inp = keep.copy() if mode != 2 else src
+                # reshape(-1) walks the logical (row-major) order whatever the memory layout: same order as vals
+                ares = [float(x) for x in np.asarray(out).reshape(-1)]
+                inp = keep.copy(order='K') if mode != 2 else src
                 ret = U.convert_array_inplace(inp, ua, ub)
                 ires = [float(x) for x in np.asarray(inp).reshape(-1)]
                 back = [U.convert(r, ub, ua) for r in scal]
@@ -215,10 +235,10 @@ class Osdd:
                 self.rep('affine_oracle', 'raises', 'conversion %s -> %s raised %s: %s' % (a.code, b.code, type(e).__name__, e),
                          {'unit_from': udesc(a), 'unit_to': udesc(b), 'values': vals}, exc=e)
                 continue
-            order = list(range(12)) if mode != 3 else None
-            if mode == 3:
-                # reshape(-1) of a Fortran-ordered (4,3) array walks rows: element [i,j] is value 3*i+j -> same order as arr
-                order = list(range(12))
+            if len(ares) != nv or len(ires) != nv:
+                self.rep('array_vs_scalar', 'shape', 'array conversion of %d values returned %d / %d values' % (nv, len(ares), len(ires)),
+                         {'unit_from': udesc(a), 'unit_to': udesc(b), 'values': vals})
+                continue
             if not copy_ok:
                 self.rep('array_vs_scalar', 'copy-mutated-input', 'convert_array(%s -> %s) changed or returned its argument' % (a.code, b.code),
                          {'unit_from': udesc(a), 'unit_to': udesc(b), 'values': vals})
@@ -363,8 +383,8 @@ class Lis:
         live = set(LU.units())
         if live != set(self.by_name) or any(LU.category(u) != self.by_name[u].group for u in live & set(self.by_name)):
             ctx.rec.inconclusive_because('live LIS unit table differs from the literal in the source (%d vs %d units)' % (len(live), len(self.by_name)))
-        ctx.rec.note('lis_units', len(self.by_name))
-        ctx.rec.note('lis_categories', len(self.by_cat))
+        ctx.rec.note('lis_table', '%d units, %d categories, %d ordered in-category pairs, %d triples' % (
+            len(self.by_name), len(self.by_cat), sum(len(v) ** 2 for v in self.by_cat.values()), sum(len(v) ** 3 for v in self.by_cat.values())))
         self.pairs = {}
         # M1: event log at the client boundary EngVal -> Units.convert (attribute replacement, no repo edit)
         self.log = []
@@ -535,7 +555,6 @@ class Lis:
         cats = [us for us in self.by_cat.values()]
         multi = [us for us in cats if len(us) >= 2]
         names = list(self.by_name)
-        BLANK = b'    '
         arith = ['+', '-', '/', '+=', '-=', 'getInUnits', 'newEngValInUnits', 'convert']
         comp = ['<', '<=', '==', '!=', '>', '>=']
         pyop = {'<': lambda x, y: x < y, '<=': lambda x, y: x <= y, '==': lambda x, y: x == y, '!=': lambda x, y: x != y,
@@ -562,7 +581,7 @@ class Lis:
             if op == 'convert':
                 b.convert(a.uom)
                 return b
-            return {'<': a < b, '<=': a <= b, '==': a == b, '!=': a != b, '>': a > b, '>=': a >= b}[op]
+            return pyop[op](a, b)
 
         for i in range(n):
             k = rng.random()
@@ -593,8 +612,8 @@ class Lis:
                     name_a, name_b = name_b, name_a           # the unknown unit is the target
                 if name_a == name_b:
                     continue
-                if op == '/' and name_b == BLANK:
-                    continue      # documented: a blank denominator is a plain number
+                if op == '/' and is_blank(name_b):
+                    continue      # documented: a blank denominator is a plain number (Mnem: NUL / space padding is blank)
                 a, b = E(A, name_a), E(B, name_b)
                 rec.case(('engval', op, repr(name_a), repr(name_b)), True, classes=['engval-' + klass])
                 ok = self.refuse('engval_refusal', klass + ':' + ('cmp' if op in comp else 'arith'), lambda: apply(op, a, b),
@@ -606,7 +625,7 @@ class Lis:
                 continue
             # convertible / same unit: model
             a, b = E(A, ua.code), E(B, ub.code)
-            if op == '/' and ub.code == BLANK:
+            if op == '/' and is_blank(ub.code):
                 continue
             rec.case(('engval', op, repr(ua.code), repr(ub.code), A, B), ua is not ub and (ua.fscale != ub.fscale or ua.foffset != ub.foffset),
                      classes=['engval-' + klass], sample={'expr': 'EngVal(%r, %r) %s EngVal(%r, %r)' % (A, ua.code, op, B, ub.code)} if i < 2 else None)
@@ -679,6 +698,7 @@ def run_shard(ctx, p):
     rep = Reporter(rec)
     part, parts = p['part'], p['parts']
     O = Osdd(ctx, rep)
+    O.extra = p.get('extra_values', 0)
     L = Lis(ctx, rep)
     try:
         if O.ok:
@@ -690,7 +710,7 @@ def run_shard(ctx, p):
                 e, n, shape_sel = O.pairs_from(a, shape_sel)
                 evals += e
                 nt += n
-            rec.bulk_cases('OSDD ordered pairs inside each dimension x 12 values (convert, convert_function, convert_array, convert_array_inplace, round trip)',
+            rec.bulk_cases('OSDD ordered pairs inside each dimension x %d values (' % (12 + O.extra) + 'convert, convert_function, convert_array, convert_array_inplace, round trip)',
                            evals, nt, exhaustive=True,
                            sample={'pair': [firsts[0].code, O.by_dim[firsts[0].group][-1].code], 'dimension': firsts[0].group,
                                    'values': pair_values(ctx.sub_rng('sample'), firsts[0], O.by_dim[firsts[0].group][-1])})
